@@ -110,7 +110,7 @@ Proof.
   intros av maxsz payload Hs. unfold pex_apply, pex_message.
   destruct (static_map_total ext_pex payload pex_table_ok Hs) as (Hf & Ho & _).
   destruct (sm_read ext_pex payload) as [e rest| | |]; try congruence; try discriminate.
-  destruct (ent_raw_string e 0) as [added|]; [|discriminate].
+  destruct (ent_raw_string e k_pex_added) as [added|]; [|discriminate].
   cbn [pl_step]. destruct added as [|c added]; [cbn; discriminate|].
   rewrite compact_exact. destruct (insert_available no_skip av maxsz _) as [av' r]. cbn. discriminate.
 Qed.
@@ -119,7 +119,7 @@ Qed.
    made unique, offered to insert_available; nothing when "added" is absent or not a string *)
 Lemma pex_exact : forall av maxsz payload av' ret, pex_apply av maxsz payload = PexDone av' ret ->
   exists e rest, sm_read ext_pex payload = Ok e rest /\
-    match ent_raw_string e 0 with
+    match ent_raw_string e k_pex_added with
     | None => av' = av /\ ret = None
     | Some [] => av' = av /\ ret = Some 1
     | Some added => (av', ret) = (let '(a, r) := insert_available no_skip av maxsz (sort_and_unique (whole_records false added))
@@ -129,7 +129,7 @@ Proof.
   intros av maxsz payload av' ret. unfold pex_apply, pex_message.
   destruct (sm_read ext_pex payload) as [e rest| | |]; try discriminate.
   intro H. exists e, rest. split; [reflexivity|].
-  destruct (ent_raw_string e 0) as [added|]; [|inversion H; auto].
+  destruct (ent_raw_string e k_pex_added) as [added|]; [|inversion H; auto].
   cbn [pl_step] in H. destruct added as [|c added].
   - cbn in H. inversion H. auto.
   - rewrite compact_exact in H. destruct (insert_available no_skip av maxsz _) as [a r]. cbn in H. inversion H. reflexivity.
@@ -268,4 +268,75 @@ Qed.
 Example ex_http_two_families :
   snd (http_two_families [] 2 [[120]; [100;53;58;112;101;101;114;115;54;58;1;2;3;4;0;80;101]])
   = [HRetry; HEv (EvSuccess [A4 16909060 80])].
+Proof. vm_compute. reflexivity. Qed.
+
+(* ------------------------------------------------------------------ find_node reply: our own id is never contacted *)
+
+Lemma contact_insert_in : forall target c l x, In x (contact_insert target c l) -> x = c \/ In x l.
+Proof.
+  intros target c. induction l as [|d l IH]; intros x H.
+  - cbn in H. destruct H as [<-|[]]. left. reflexivity.
+  - cbn [contact_insert] in H. destruct (fst c =? fst d); [right; exact H|].
+    destruct (N.lxor (fst c) target <? N.lxor (fst d) target).
+    + destruct H as [<-|H]; [left; reflexivity|right; exact H].
+    + destruct H as [<-|H]; [right; left; reflexivity|].
+      destruct (IH x H) as [->|Hin]; [left; reflexivity|right; right; exact Hin].
+Qed.
+
+Lemma find_node_contacts_spec : forall own target resp recs x,
+  In x (find_node_contacts own target resp recs) -> fst x <> own /\ fst x <> resp /\ In x recs.
+Proof.
+  intros own target resp recs x. unfold find_node_contacts.
+  assert (G : forall recs acc,
+             (forall y, In y acc -> fst y <> own /\ fst y <> resp) ->
+             In x (fold_left (fun acc r => if (fst r =? own) || (fst r =? resp) then acc else contact_insert target r acc) recs acc) ->
+             (fst x <> own /\ fst x <> resp) /\ (In x acc \/ In x recs)).
+  { induction recs0 as [|r recs0 IH]; intros acc Hacc H.
+    - cbn in H. split; [apply Hacc, H|left; exact H].
+    - cbn [fold_left] in H. destruct ((fst r =? own) || (fst r =? resp)) eqn:E.
+      + destruct (IH acc Hacc H) as [P [Q|Q]]; (split; [exact P|]); [left; exact Q|right; right; exact Q].
+      + apply orb_false_iff in E. destruct E as [E1 E2].
+        assert (Hacc' : forall y, In y (contact_insert target r acc) -> fst y <> own /\ fst y <> resp).
+        { intros y Hy. apply contact_insert_in in Hy. destruct Hy as [->|Hy]; [split; lia|apply Hacc, Hy]. }
+        destruct (IH _ Hacc' H) as [P [Q|Q]]; (split; [exact P|]).
+        * apply contact_insert_in in Q. destruct Q as [->|Q]; [right; left; reflexivity|left; exact Q].
+        * right; right; exact Q. }
+  intro H. destruct (G recs [] (fun y (F : In y []) => match F with end) H) as [[P1 P2] [[]|Q]]. auto.
+Qed.
+
+Lemma firstn_incl : forall (A : Type) n (l : list A) x, In x (firstn n l) -> In x l.
+Proof.
+  intros A n. induction n as [|n IH]; intros l x H; [destruct H|].
+  destruct l as [|a l]; [destruct H|]. cbn in H. destruct H as [<-|H]; [left; reflexivity|right; apply IH, H].
+Qed.
+
+(* whatever the compact `nodes` string of a matched find_node reply holds: a query is only ever sent to a contact
+   that the string names, whose id is neither OUR OWN id nor the responder's, and to at most 3 of them *)
+Lemma own_id_never_contacted : forall announce matched own target resp nodes l,
+  dht_find_node_reply announce matched own target resp nodes = FnQueries l ->
+  (length l <= search_concurrency)%nat /\
+  forall x, In x l -> fst x <> own /\ fst x <> resp /\
+                      exists b recs, nodes = Some b /\ parse_compact_nodes b = POk recs /\ In x recs.
+Proof.
+  intros announce matched own target resp nodes l. unfold dht_find_node_reply.
+  destruct (negb matched); [discriminate|]. destruct nodes as [b|]; [|discriminate].
+  destruct (parse_compact_nodes b) as [recs| |] eqn:Hp; try discriminate.
+  set (cs := find_node_contacts own target resp recs).
+  assert (Hf : forall x, In x (firstn search_concurrency cs) -> In x cs) by (intros x Hx; eapply firstn_incl; exact Hx).
+  assert (Hl : (length (firstn search_concurrency cs) <= search_concurrency)%nat) by apply firstn_le_length.
+  destruct (firstn search_concurrency cs) as [|q0 q] eqn:Hq.
+  - destruct announce; [discriminate|]. intro H. inversion H. split; [cbn; lia|intros x []].
+  - intro H. inversion H. subst l. split; [exact Hl|].
+    intros x Hx. destruct (find_node_contacts_spec own target resp recs x (Hf x Hx)) as (A & B & C).
+    split; [exact A|]. split; [exact B|]. exists b, recs. auto.
+Qed.
+
+(* an unmatched reply (wrong transaction id, wrong node id, other source address) has no effect *)
+Lemma unmatched_reply_ignored : forall announce own target resp nodes,
+  dht_find_node_reply announce false own target resp nodes = FnIgnored.
+Proof. reflexivity. Qed.
+
+Example ex_find_node_own_id :
+  dht_find_node_reply false true 5 7 9 (Some (repeat 0 19 ++ [5] ++ [127;0;0;3;3;235] ++ repeat 0 19 ++ [6] ++ [127;0;0;4;3;236]))
+  = FnQueries [(6, A4 2130706436 1004)].
 Proof. vm_compute. reflexivity. Qed.
